@@ -229,6 +229,9 @@ def run_c03(pid):
     total_calls = 0
     for profile in ("release", "checked"):
         slim_items = [{k: it[k] for k in it if k != "plan"} for it in items]
+        if profile == "checked":
+            # the long stream costs three times as much with overflow checks: half the length there (2.1 G samples, still beyond 2^31)
+            slim_items = [dict(it, repeat_frame=32771) if "repeat_frame" in it else it for it in slim_items]
         traces, timeouts = decode_items(wd, slim_items, "valid", profile, APIS)
         for h in timeouts:
             v.violation("%s %s profile=%s" % (pid, h.kind, profile), "decoding item %d %s" % (h, h.what), {"plan": by_id[h].get("plan")})
